@@ -235,12 +235,21 @@ def contract(W, dy, direction):
     return float(np.real(s)) if direction == 1 else float(np.imag(s / 1j))
 
 
-def expected_records(net, fromlist, tolist, Ws, dx, relative_dx, kz, kconst, check_model=True):
+def expected_records(net, fromlist, tolist, Ws, dx, relative_dx, kz, kconst, check_model=True, actual=None):
     """fromlist: [(name, idx)], tolist: [(name, idx)], Ws: per output full-size flat seed.
     Returns (records, info).  One record per perturbable entry x direction x output."""
     vals = net.forward()
     anet = net.absolute()
+    # magnitudes are taken at |x| + (largest step) so that they also bound the perturbed evaluations
+    xmax = max([1.0] + [float(np.max(np.abs(vals[n][idx.reshape(-1)]))) for n, idx in fromlist if idx.size])
+    hmax = dx * (xmax if relative_dx else 1.0)
+    anet.sources = {k: v + hmax for k, v in anet.sources.items()}
     mag = anet.forward()
+    cutmid = {n for n, _ in fromlist if n not in anet.sources}
+    if cutmid:
+        for n in cutmid:
+            mag[n] = mag[n] + hmax
+        mag = anet.forward(base=mag, cut=cutmid)
     cut = {n for n, _ in fromlist}
     sens = [net.reverse(vals, {n: W}) for (n, _), W in zip(tolist, Ws)]
     smag = [anet.reverse(mag, {n: np.abs(W)}) for (n, _), W in zip(tolist, Ws)]
@@ -253,11 +262,16 @@ def expected_records(net, fromlist, tolist, Ws, dx, relative_dx, kz, kconst, che
     rscale = [float(np.sum(np.abs(W) * mag[n])) for (n, _), W in zip(tolist, Ws)]
     recs = []
     selfcheck = 0.0
+    nchecked = 0
     for f, (name, idx) in enumerate(fromlist):
         cplx = bool(net.is_cplx[name])
         for e, fi in enumerate(idx.reshape(-1)):
             fi = int(fi)
             x0 = vals[name][fi]
+            if actual is not None and name in actual:
+                # an intermediate signal: the entry value is whatever the upstream modules really produced
+                # (equal to the reference value up to the last bits; used for the zero test, the step and the key)
+                x0 = actual[name][fi]
             if kz and x0 == 0:
                 continue
             h = dx * abs(x0) if (relative_dx and abs(x0) != 0) else dx
@@ -265,21 +279,23 @@ def expected_records(net, fromlist, tolist, Ws, dx, relative_dx, kz, kconst, che
                 tang = net.tangent(vals, name, fi, direction, cut)
                 vp = net.forward(vals, (name, fi, x0 + h * direction), cut)
                 vm = net.forward(vals, (name, fi, x0 - h * direction), cut)
-                if check_model:
-                    s = 1e-2 * max(1.0, abs(x0))
+                check_now = check_model and nchecked < 24
+                if check_now:
+                    nchecked += 1
+                    s = 1e-3 * max(1.0, abs(x0))
                     v5 = [net.forward(vals, (name, fi, x0 + k * s * direction), cut) for k in (-2, -1, 1, 2)]
                 for o, ((tn, tidx), W) in enumerate(zip(tolist, Ws)):
                     D = contract(W, tang[tn], direction) if tn in tang else 0.0
-                    qp = contract(W, (vp[tn] - vals[tn]) / (h * direction), direction)
-                    qm = contract(W, (vm[tn] - vals[tn]) / (-h * direction), direction)
+                    qp = contract(W, (vp[tn] - vals[tn]) / h, direction)
+                    qm = contract(W, (vm[tn] - vals[tn]) / (-h), direction)
                     rnd = kconst * EPS * rscale[o] / h
                     allow = 2 * max(abs(qp - D), abs(qm - D)) + rnd
                     g = sens[o].get(name)
                     gm = smag[o].get(name)
                     an = 0.0 if g is None else float(np.real(g[fi]) if direction == 1 else np.imag(g[fi]))
                     tol_an = 1e-12 * ((0.0 if gm is None else float(np.real(gm[fi]))) * kfac + abs(an)) + 1e-300
-                    if check_model:
-                        d5 = contract(W, (v5[0][tn] - 8 * v5[1][tn] + 8 * v5[2][tn] - v5[3][tn]) / (12 * s * direction),
+                    if check_now:
+                        d5 = contract(W, (v5[0][tn] - 8 * v5[1][tn] + 8 * v5[2][tn] - v5[3][tn]) / (12 * s),
                                       direction)
                         selfcheck = max(selfcheck, abs(d5 - D) / max(rscale[o], 1e-300))
                     recs.append({"inp": f, "entry": e, "flat": fi, "dir": "re" if direction == 1 else "im", "out": o,
@@ -382,7 +398,8 @@ def judge_stream(reports, recs):
     if not ok_fd:
         i, j, w = worst(m_fd, okfd, rfd, efd, eal, "numerical")
         stats["bad_report"], stats["bad_record"] = i, j
-        stats["unmatched_fd_reports"] = [q for q in range(n) if not okfd[q].any()]
+        # reports left over by a maximum matching on (entry, numerical value)
+        stats["unmatched_fd_reports"] = [q for q in range(n) if m_fd is None or m_fd[q] < 0]
         return "numerical/not-the-directional-derivative-within-O(dx)", w, stats
     i, j, w = worst(match, okan & okfd, rfd, efd, eal, "numerical")
     return "reports/analytical-and-numerical-values-of-different-entries-paired", w, stats
